@@ -80,14 +80,22 @@ def run(rep, tier, seed):
     ]
     big = tier == "thorough"
     fams = [("depth", dict(MaxNodes=5 if big else 4)), ("flat", dict(MaxNodes=4 if big else 3)),
-            ("loop", dict(MaxNodes=3 if big else 2)), ("var", dict(MaxNodes=3))]
+            ("loop", dict(MaxNodes=3)), ("var", dict(MaxNodes=3))]
     cmp = interp.standard_compare()
     for fam, over in fams:
         r = interp.model_check_family(rep, fam, tier, **over)
         rep.bounds[fam] = {k: (sorted(v) if isinstance(v, set) else v) for k, v in interp.constants(fam, **over).items()}
         recs = r.replay
-        if not big and len(recs) > 1500:
-            recs = rnd.sample(recs, 1500)
+        if not big and len(recs) > 2500:
+            # stratified by outcome / retried so that rare classes are kept
+            groups = {}
+            for x in recs:
+                groups.setdefault((x["res"], x["passes"] > 0, interp.doc_size(x["doc"])), []).append(x)
+            share = max(1, 2500 // len(groups))
+            recs = []
+            for g in groups.values():
+                rnd.shuffle(g)
+                recs += g[:share]
         classes = {}
         for x in r.replay:
             classes[x["res"]] = classes.get(x["res"], 0) + 1
